@@ -141,6 +141,7 @@ def prof_C02(d, rng):
 def prof_C03(d, rng):
     prof_C02(d, rng)
     d["status_reads"] = rng.random() < 0.3
+    d["midrun_skips"] = rng.random() < 0.15
     d["stop"] = rng.random() < 0.35
     d["p_hook_fail"] = rng.choice([0.0, 0.05, 0.15])
     d["tagsel"] = rng.random() < 0.5
@@ -350,7 +351,21 @@ def c12_eval_world(world, root, stats, only=None):
 def c12_evaluate(seed, hashseed, root, stats):
     world = W.gen_world(seed, profile=prof_C12)
     world["hashseed"] = hashseed
-    return c12_eval_world(world, root, stats)
+    out, dig = c12_eval_world(world, root, stats)
+    # companion worlds: the scripted run only (no enumeration) through the same acceptor - the
+    # order / pairing / no-hooks-for-skipped rules need breadth of trees and selections more than
+    # depth of injection
+    for k in range(16 if os.environ.get("VERIF_TIER") == "thorough" else 12):
+        w2 = W.gen_world(1500000000 + (seed * 37 + k) % 400000000, profile=prof_C12)
+        w2["hashseed"] = hashseed
+        vs, h2, _p2 = run_and_judge("C12", w2, root, stats, [O.check_C12])
+        dig = hashlib.sha1((dig + R.history_digest(h2)).encode("ascii")).hexdigest()
+        for v in vs:
+            if v["prop"] == "C12":
+                out.append((w2, v, None))
+        if stats is not None:
+            stats.probe("companion-worlds")
+    return out, dig
 
 
 def c12_reproduce(world, root, ctx):
@@ -679,6 +694,7 @@ def prof_C14(d, rng):
 
 def prof_C15(d, rng):
     prof_C03(d, rng)
+    d["midrun_skips"] = False   # (reports written while the run proceeds cannot show a later feature.skip())
     d["rec"] = True
     d["junit"] = False
     d["autoretry"] = False
@@ -725,6 +741,7 @@ def prof_C18(d, rng):
     d["log_level_changes"] = rng.random() < 0.3
     d["pre_handler"] = rng.random() < 0.3
     d["p_clear_handlers"] = 0.3 if d["pre_handler"] else 0.1
+    d["p_log_burst"] = rng.choice([0.0, 0.0, 0.0, 0.05])
 
 
 def c14_probe(world, hist, pred, stats):
